@@ -57,6 +57,9 @@ BASE = [('UTIM', ['Unix', 'Time'], 'sec'), ('DATE', ['Date'], 'ddmmyy'), ('TIME'
 POOLS = [
     [('WAC', ['Wits', 'Activity', 'Code'], 'unitless'), ('HVMX', ['Heave'], 'm'), ('PIT1', ['Tank', 'Volume', 'Pit', '1'], 'm3')],
     [('ROP', ['ROP'], 'm/hr'), ('ECDW', ['ECD', 'at', 'Weakest', 'Depth'], 'g/cc'), ('GAS', ['Total', 'Gas'], '%')],
+    # ordinary numeric channels that merely share their *units* with the three time columns: the statement types a
+    # column by what it is (the Unix-time, date and time columns), the others are floats
+    [('LAGT', ['Lag', 'Time'], 'sec'), ('DAYC', ['Day', 'Count'], 'ddmmyy'), ('TOFF', ['Time', 'Offset'], 'hhmmss')],
 ]
 SEPS = [(' ', ' '), ('\t', ' '), ('  ', ' '), ('\t', '\t')]
 FLOATS = [('0', 0.0), ('8.50', 8.5), ('3131.07', 3131.07), ('269999', 269999.0), ('0.7', 0.7), ('10.00', 10.0), ('1.1976', 1.1976)]
@@ -207,7 +210,10 @@ def case_text(case):
     if case.get('cor'):
         lines = apply_corruption(lines, case['cor'], model['sep'][0])
         return dat_ref.join_lines(lines), model, None
-    return dat_ref.join_lines(lines), model, dat_ref.expected(model)
+    text = dat_ref.join_lines(lines)
+    if case.get('nofinal'):
+        text = text[:-1]          # the last line is not terminated by a newline: still the same lines
+    return text, model, dat_ref.expected(model)
 
 
 # ---------------------------------------------------------------------------------------------
@@ -376,7 +382,7 @@ def judge_path(text, exp, directory):
 # enumeration
 # ---------------------------------------------------------------------------------------------
 def _pools(tier):
-    return [0] if tier == 'quick' else [0, 1]
+    return [0, 2] if tier == 'quick' else [0, 1, 2]
 
 
 def _cor_orders(tier, k):
@@ -393,12 +399,16 @@ def shards(tier):
     out = []
     for pool in _pools(tier):
         for k in (1, 2, 3):
+            if pool == 2 and tier == 'quick' and k == 3:
+                continue
             nperm = len(list(itertools.permutations(range(3 + k))))
             chunk = 60
             for lo in range(0, nperm, chunk):
                 out.append({'part': 'orders', 'pool': pool, 'k': k, 'lo': lo, 'hi': min(nperm, lo + chunk)})
             for sep in range(len(SEPS)):
                 out.append({'part': 'rows', 'pool': pool, 'k': k, 'sep': sep})
+            if pool == 2 and tier == 'quick':
+                continue
             orders = _cor_orders(tier, k)
             nsep = 3 if tier == 'quick' else 4
             if k == 3:
@@ -471,6 +481,8 @@ def run_shard(shard, tier):
                 for n in range(0, 4):
                     for dv in _dv_combos(n, tier):
                         _run_valid(res, {'pool': pool, 'decl': decl, 'sep': shard['sep'], 'hdr': hdr, 'dv': dv})
+                    for dv in _dv_combos(n, tier)[:2]:
+                        _run_valid(res, {'pool': pool, 'decl': decl, 'sep': shard['sep'], 'hdr': hdr, 'dv': dv, 'nofinal': 1})
     else:
         for pi in shard['orders']:
             decl = [names[i] for i in perms[pi]]
